@@ -39,6 +39,9 @@ enum Inner {
     I32,
     F64,
     Nested,
+    /// user type whose INHERENT methods `as_ref` / `into` / `clone` disagree with its `AsRef<str>` / `From<&Odd> for &'static str`
+    /// impls, and which has no `From<Odd> for &'static str` (a by-value conversion must still go through the reference)
+    Odd,
 }
 
 fn inner_ty(i: Inner) -> FieldTy {
@@ -51,6 +54,7 @@ fn inner_ty(i: Inner) -> FieldTy {
         Inner::I32 => FieldTy::I32,
         Inner::F64 => FieldTy::Raw("f64".into(), "0.0".into()),
         Inner::Nested => FieldTy::Raw("Nested".into(), "Violet".into()),
+        Inner::Odd => FieldTy::Raw("Odd".into(), "Odd(\"\")".into()),
     }
 }
 
@@ -61,6 +65,7 @@ fn inner_values(t: &FieldTy) -> Vec<&'static str> {
         FieldTy::I32 => vec!["0i32", "-14i32", "i32::MAX"],
         FieldTy::Raw(n, _) if n == "f64" => vec!["1.5f64", "-0.25f64"],
         FieldTy::Raw(n, _) if n == "Nested" => vec!["Nested::Violet", "Nested::Fuchsia"],
+        FieldTy::Raw(n, _) if n == "Odd" => vec!["Odd(\"ReadMe.MD\")", "Odd(\"é x\")"],
         FieldTy::Raw(n, _) if n == "Box<str>" => vec!["Box::<str>::from(\"\")", "Box::<str>::from(\"é x\")"],
         FieldTy::Raw(n, _) if n == "Ofs" => vec!["Ofs::from(\"\")", "Ofs::from(\"é x\")"],
         FieldTy::Raw(n, _) if n == "S" => vec!["\"\"", "\"é x\"", "\"Hello\""],
@@ -93,7 +98,7 @@ fn alphabet() -> Vec<Dev> {
     }
     for (pn, first) in [("first", true), ("last", false)] {
         for named in [false, true] {
-            for (iname, inner) in [("String", Inner::Str), ("&'static str", Inner::SStr), ("i32", Inner::I32), ("f64", Inner::F64), ("nested enum", Inner::Nested)] {
+            for (iname, inner) in [("String", Inner::Str), ("&'static str", Inner::SStr), ("i32", Inner::I32), ("f64", Inner::F64), ("nested enum", Inner::Nested), ("user type with misleading inherent methods", Inner::Odd)] {
                 for tos in [None, Some("Ttx"), Some("{0}")] {
                   if tos.is_some() && (named || inner != Inner::I32 && inner != Inner::Str) { continue; }
                   d.push(dev(format!("transparent variant {} ({}, {}{})", pn, if named { "named" } else { "tuple" }, iname, match tos { Some(t) => format!(", to_string={:?}", t), None => String::new() }), &["transparent"], move |s| {
@@ -213,6 +218,7 @@ pub fn render(spec: &EnumSpec) -> String {
         Some(FieldTy::SStr) => (true, true),
         Some(FieldTy::Raw(n, _)) if n == "S" => (true, false),
         Some(FieldTy::Raw(n, _)) if n == "Nested" => (true, true),
+        Some(FieldTy::Raw(n, _)) if n == "Odd" => (true, true),
         _ => (false, false),
     };
     // a Box<str> default variant has no bearing on AsRefStr / IntoStaticStr (they print the name)
@@ -256,7 +262,12 @@ pub fn render(spec: &EnumSpec) -> String {
     let nested = "#[derive(Debug, Clone, PartialEq, Default, strum::Display, strum::AsRefStr, strum::IntoStaticStr, strum::EnumString)]\npub enum Nested { #[default] Violet, #[strum(to_string = \"fu chsia é\")] Fuchsia }\n\
 #[derive(Clone, PartialEq)]\npub struct Ofs(String);\nimpl From<&str> for Ofs { fn from(s: &str) -> Ofs { Ofs(s.to_string()) } }\n\
 impl core::fmt::Debug for Ofs { fn fmt(&self, f: &mut core::fmt::Formatter<'_>) -> core::fmt::Result { core::fmt::Debug::fmt(&self.0, f) } }\n\
-impl core::fmt::Display for Ofs { fn fmt(&self, f: &mut core::fmt::Formatter<'_>) -> core::fmt::Result { core::fmt::Display::fmt(&self.0, f) } }\n";
+impl core::fmt::Display for Ofs { fn fmt(&self, f: &mut core::fmt::Formatter<'_>) -> core::fmt::Result { core::fmt::Display::fmt(&self.0, f) } }\n\
+#[derive(Debug, PartialEq, Default)]\npub struct Odd(pub &'static str);\n\
+#[allow(dead_code, clippy::all)]\nimpl Odd { pub fn as_ref(&self) -> &str { \"inherent as_ref\" } pub fn into(self) -> &'static str { \"inherent into\" } pub fn clone(&self) -> &'static str { \"inherent clone\" } pub fn fmt(&self) -> &'static str { \"inherent fmt\" } }\n\
+impl AsRef<str> for Odd { fn as_ref(&self) -> &str { self.0 } }\n\
+impl From<&Odd> for &'static str { fn from(o: &Odd) -> &'static str { o.0 } }\n\
+impl core::fmt::Display for Odd { fn fmt(&self, f: &mut core::fmt::Formatter<'_>) -> core::fmt::Result { core::fmt::Display::fmt(self.0, f) } }\n";
     format!("{}{}", nested, render_parse_module(spec, &derives, &body))
 }
 
